@@ -27,6 +27,7 @@ import (
 //         +          a node joins (listed, started) and the backend announces NEW_NODE
 //         -<i>       node i leaves (delisted, stopped) and the backend announces REMOVED_NODE
 //         s:<ks>     a session for keyspace <ks> is opened ("missing…" does not exist: the session fails to connect)
+//         f          the next topology query (system.peers) of the proxy is answered with an error, once
 //         x          the control connection is dropped
 //         w          wait for the refresh window / reconnection
 //         p          probe: hosts of a new query plan, and for each listed node whether the first session can send to it
@@ -164,6 +165,18 @@ func runTopoChild(op string) string {
 			} else {
 				res = append(res, "sessok")
 			}
+		case a == "f":
+			var once sync.Once
+			cl.SystemHandler = func(c *fakecass.Conn, q string) (fakecass.Response, bool) {
+				if strings.Contains(q, "system.peers") {
+					failed := false
+					once.Do(func() { failed = true })
+					if failed {
+						return fakecass.Response{Kind: fakecass.RespMsg, Msg: &message.ServerError{ErrorMessage: "peers unavailable"}}, true
+					}
+				}
+				return fakecass.Response{}, false
+			}
 		case a == "x":
 			for _, ip := range cl.NodeIPs() {
 				cl.Node(ip).DropConns(func(c interface{ Registered() bool }) bool { return c.Registered() })
@@ -221,6 +234,8 @@ func genTopo(e *emitter, r *rng.R, n int, tier string) {
 		"H:2 s:missing p -1 w p",
 		"H:2 p x w p + w p x w p",
 		"H:2 p + x w p + w p",          // the control connection is lost while a refresh is pending
+		"H:2 p f + w p + w p",          // the refresh after a change fails once: the change must still be followed
+		"H:3 p f -1 w p + w p",
 		"H:3 p -1 x w p + w p -2 w p",
 		"H:2 p + + x w p -1 w p + w p",
 	}
@@ -245,6 +260,9 @@ func genTopo(e *emitter, r *rng.R, n int, tier string) {
 				} else {
 					parts = append(parts, fmt.Sprintf("-%d", 1+rr.Intn(total-1)), "w", "p")
 				}
+			case c < 6 && rr.Intn(3) == 0 && total < 5:
+				total++
+				parts = append(parts, "f", "+", "w", "p")
 			case c < 6:
 				parts = append(parts, "s:"+rr.Pick([]string{"app", "missing", "other", "missing2"}))
 			case c < 8:
